@@ -368,6 +368,14 @@ static void block(int level, unsigned long long cursec_, unsigned long long ss, 
             block(level + 1, SID[k], ss | SID[k], np, maxdepth - 1);
             if (failed) return;
             int cl = pick(3); lineno++;
+            /* a matching close tag is spelled in another case when the section was opened on an even line: the same
+             * section iff names are case-insensitive (this varies the spelling without multiplying the documents) */
+            if (cl == 0 && (myline & 1) == 0) {
+                char up[16]; int q = 0; for (const char *c = NAME[k]; *c; c++) up[q++] = (*c >= 'a' && *c <= 'z') ? *c - 32 : *c; up[q] = 0;
+                sprintf(line, "</%s>\n", up); strcat(doc, line); uses_special = 1;
+                if (!(sflags & QAC_CASEINSENSITIVE)) { failed = lineno; return; }
+                w = want + strlen(want); sprintf(w, "2:%s,n%d L%d S%llu SS%llu P%s\n", NAME[k], myline, level, cursec_, ss, parents); count++;
+            } else
             if (cl == 0) { sprintf(line, "</%s>\n", NAME[k]); strcat(doc, line); w = want + strlen(want); sprintf(w, "2:%s,n%d L%d S%llu SS%llu P%s\n", NAME[k], myline, level, cursec_, ss, parents); count++; }
             else if (cl == 1) { sprintf(line, "</Q>\n"); strcat(doc, line); failed = lineno; return; }
             else { lineno--; failed = -1; return; }   /* never closed: rejected at end of file */
